@@ -330,6 +330,10 @@ pub enum RawF {
     /// one optionally one quantifier deeper (so that it gets another internal name); d' is the same
     /// label, another label or absent depending on the variant
     Twin(u8, u16, u8, Box<RawF>),
+    /// `Q1{u}: Q2{v}: (body(u, v) op body(v, u))`: the same body twice with the two variables in
+    /// exchanged roles (duplicates that differ only in variable names, as in the usual
+    /// bi-stability formulae)
+    TwinSwap(u8, u16, Box<RawF>),
 }
 
 #[derive(Clone, Copy, Debug)]
@@ -394,8 +398,10 @@ pub fn raw_f_weighted(depth: u32, size: u32, pattern_weight: u32) -> BoxedStrate
                 .prop_map(|(op, a, b)| RawF::Bin(op, Box::new(a), Box::new(b))),
             5 => (0..6u8, any::<u16>(), prop::option::weighted(0.45, any::<u16>()), inner.clone())
                 .prop_map(|(op, v, d, a)| RawF::Hyb(op, v, d, Box::new(a))),
-            2 => (any::<u8>(), any::<u16>(), any::<u8>(), inner)
+            2 => (any::<u8>(), any::<u16>(), any::<u8>(), inner.clone())
                 .prop_map(|(ops, d, variant, a)| RawF::Twin(ops, d, variant, Box::new(a))),
+            1 => (any::<u8>(), any::<u16>(), inner)
+                .prop_map(|(ops, v, a)| RawF::TwinSwap(ops, v, Box::new(a))),
         ]
     })
     .boxed()
@@ -624,6 +630,65 @@ fn resolve_node(raw: &RawF, env: &FEnv, scope: &mut Vec<String>, seen: &mut Vec<
             } else {
                 F::Bin(bop, Box::new(first), Box::new(second))
             }
+        }
+        RawF::TwinSwap(ops, vsel, body) => {
+            if scope.len() + 2 > env.cfg.max_quant_depth {
+                return resolve_rec(body, env, scope, seen);
+            }
+            let quants = [HybOp::Bind, HybOp::Exists, HybOp::Forall];
+            let (q1, q2) = (quants[(*ops % 3) as usize], quants[((*ops / 3) % 3) as usize]);
+            let bop = BIN_OPS[((*ops / 9) % 9) as usize];
+            let bop = if !env.cfg.weak_until {
+                match bop {
+                    BinOp::EW => BinOp::EU,
+                    BinOp::AW => BinOp::AU,
+                    o => o,
+                }
+            } else {
+                bop
+            };
+            let u = fresh_binder(*vsel, scope, env.binders);
+            scope.push(u.clone());
+            let v = fresh_binder(vsel.wrapping_add(9000), scope, env.binders);
+            scope.push(v.clone());
+            // make sure both variables occur: jump to one, mention the other
+            let inner = resolve_rec(body, env, scope, seen);
+            scope.pop();
+            scope.pop();
+            let b = F::Hyb(
+                HybOp::Jump,
+                u.clone(),
+                None,
+                Box::new(F::bin(BinOp::And, inner, F::un(UnOp::EF, F::Var(v.clone())))),
+            );
+            // the same body with u and v exchanged (bound variables inside are left alone; they
+            // cannot be named u or v because both were in scope when the body was resolved)
+            fn swap(f: &F, u: &str, v: &str) -> F {
+                let sw = |x: &String| {
+                    if x == u {
+                        v.to_string()
+                    } else if x == v {
+                        u.to_string()
+                    } else {
+                        x.clone()
+                    }
+                };
+                match f {
+                    F::Var(x) => F::Var(sw(x)),
+                    F::Un(op, a) => F::Un(*op, Box::new(swap(a, u, v))),
+                    F::Bin(op, a, b) => F::Bin(*op, Box::new(swap(a, u, v)), Box::new(swap(b, u, v))),
+                    F::Hyb(HybOp::Jump, x, d, a) => F::Hyb(HybOp::Jump, sw(x), d.clone(), Box::new(swap(a, u, v))),
+                    F::Hyb(op, x, d, a) => F::Hyb(*op, x.clone(), d.clone(), Box::new(swap(a, u, v))),
+                    other => other.clone(),
+                }
+            }
+            let b2 = swap(&b, &u, &v);
+            F::Hyb(
+                q1,
+                u.clone(),
+                None,
+                Box::new(F::Hyb(q2, v.clone(), None, Box::new(F::Bin(bop, Box::new(b), Box::new(b2))))),
+            )
         }
         RawF::Pattern(variant, sel) => {
             if !env.cfg.patterns || scope.len() >= env.cfg.max_quant_depth {
